@@ -528,7 +528,13 @@ func (t *Target) gnmiUpdate(n *pb.Notification) (*ctree.Leaf, error) {
 		suffix = nil
 	}
 	path := joinPrefixAndPath(n.Prefix, suffix)
+	if len(path) == 0 {
+		return nil, errors.New("update with an empty path")
+	}
 	if path[0] == metadata.Root {
+		if len(path) == 1 {
+			return nil, fmt.Errorf("update for the %q subtree without a metadata name", metadata.Root)
+		}
 		realData = false
 		u := n.Update[0]
 		switch path[1] {
@@ -652,7 +658,7 @@ func toDeleteNotification(n *pb.Notification, timestamp int64) *pb.Notification 
 
 func (t *Target) gnmiRemove(n *pb.Notification) []*ctree.Leaf {
 	path := joinPrefixAndPath(n.Prefix, n.Delete[0])
-	if path[0] == metadata.Root {
+	if len(path) > 1 && path[0] == metadata.Root {
 		t.meta.ResetEntry(path[1])
 	}
 	var leaves []*ctree.Leaf
